@@ -82,12 +82,39 @@ StepLawVerdict(ev, isX) ==
         b == FirstBad(Len(ev.rows), LAMBDA k : RowOk(ev.rows[k]))
     IN IF b = 0 THEN {} ELSE {V("P_StepIterLaws", "None", key \o (IF isX THEN ":x" ELSE ":y"), [row |-> ev.rows[b], w |-> v.w, h |-> v.h])}
 
+\* ---- views without addresses (virtual locators, dereference adaptors): pixels carry Gen of the base coordinates
+VViewVerdict(ev) ==
+    LET d   == ChainDims(ev.ops, ev.w, ev.h)
+        off == IF ev.kind = "virtcc" THEN 100000 ELSE 0
+        exp == P_ChainVals(ev.ops, ev.w, ev.h, off)
+        chain == IF ev.ops = <<>> THEN "base" ELSE IF Len(ev.ops) = 1 THEN ev.ops[1].op
+                 ELSE IF Len(ev.ops) = 2 THEN ev.ops[1].op \o ">" \o ev.ops[2].op ELSE ev.ops[1].op \o ">" \o ev.ops[2].op \o ">" \o ev.ops[3].op
+        key == ev.kind \o "/" \o chain
+        ctx == [w |-> ev.w, h |-> ev.h, ops |-> ev.ops]
+        path(name, got) == IF got # exp THEN {V("P_SamePixel", "None", key \o ":" \o name, [ctx |-> ctx, expected |-> exp, got |-> got])} ELSE {}
+    IN IF <<ev.rw, ev.rh>> # d \/ ev.size # d[1] * d[2]
+       THEN {V("P_Dims", "None", key, [ctx |-> ctx, expected |-> d, got |-> <<ev.rw, ev.rh, ev.size>>])}
+       ELSE (IF ev.p_xy # exp THEN {V("P_Map", "None", key, [ctx |-> ctx, expected |-> exp, got |-> ev.p_xy])} ELSE {})
+            \cup (IF ev.p_xy = exp
+                  THEN path("row_begin", ev.p_row) \cup path("col_begin", ev.p_col) \cup path("begin[]", ev.p_it1d) \cup path("at", ev.p_at)
+                       \cup path("rbegin", ev.p_rbegin) \cup path("xy_at", ev.p_xyat) \cup path("x_at", ev.p_xat) \cup path("y_at", ev.p_yat)
+                       \cup path("it+=", ev.p_itadv) \cup path("loc+=", ev.p_locmove) \cup path("cache_location", ev.p_cache)
+                       \cup path("axis++", ev.p_axis) \cup path("begin..end", ev.p_loop)
+                  ELSE {})
+            \cup (IF ev.size1d # d[1] * d[2] THEN {V("P_Size1D", "None", key, [ctx |-> ctx, got |-> ev.size1d])} ELSE {})
+            \cup (IF ev.bad_assoc + ev.bad_back + ev.bad_dist + ev.bad_order + ev.bad_incdec > 0
+                  THEN {V("P_IterLaws", "None", key, [ctx |-> ctx, assoc |-> ev.bad_assoc, back |-> ev.bad_back, dist |-> ev.bad_dist, order |-> ev.bad_order, incdec |-> ev.bad_incdec, of |-> ev.nlaw])} ELSE {})
+            \cup (IF ev.bad_axis > 0 THEN {V("P_StepIterLaws", "None", key, [ctx |-> ctx, bad |-> ev.bad_axis])} ELSE {})
+            \* a view that claims to be 1-D traversable must deliver its rows back to back through the x iterator (checked by begin..end above
+            \* for the positional iterator; here: a dereference adaptor over padded or stepped memory must not claim it)
+
 Verdict(ev) ==
     CASE ev.e = "View"   -> ViewVerdict(ev)
       [] ev.e = "ItLaw"  -> ItLawVerdict(ev)
       [] ev.e = "XItLaw" -> StepLawVerdict(ev, TRUE)
       [] ev.e = "YItLaw" -> StepLawVerdict(ev, FALSE)
-      [] ev.e = "Fault"  -> {V("P_NoFault", "None", cfg, ev.kind)}
+      [] ev.e = "VView"  -> VViewVerdict(ev)
+      [] ev.e = "Fault"  -> {V("P_NoFault", "None", IF l > 1 /\ Tr[l - 1].e = "VView" THEN "value-views" ELSE cfg, ev.kind)}
       [] ev.e \in {"Try", "Root", "End"} -> {}
       [] OTHER -> {V("UnknownEvent", "None", ev.e, l)}
 
@@ -102,7 +129,7 @@ Step == /\ l <= NTr
                             [i \in (DOMAIN views) \cup {ev.id} |->
                                 IF i = ev.id THEN [w |-> ev.w, h |-> ev.h, map |-> ev.map, cm |-> ev.cm, nch |-> ev.nch] ELSE views[i]]
                        ELSE views
-           /\ nchk' = nchk + (IF ev.e \in {"View", "ItLaw", "XItLaw", "YItLaw"} THEN 1 ELSE 0)
+           /\ nchk' = nchk + (IF ev.e \in {"View", "ItLaw", "XItLaw", "YItLaw", "VView"} THEN 1 ELSE 0)
         /\ drift' = drift
         /\ l' = l + 1
 Fin  == /\ l = NTr + 1 /\ WriteOut(bad, drift, nchk) /\ l' = l + 1 /\ UNCHANGED <<bad, drift, nchk, root, views, cfg>>
